@@ -22,7 +22,7 @@ import (
 func init() {
 	Registry["C18"] = RunC18
 	Metas["C18"] = Meta{
-		Rule: "episode = real route.Engine.Run on the real standard transport accept loop over a simulated listener (hook H3), 1..6 simulated client connections whose state at the moment of shutdown is decided by the scheduler (idle keep-alive, header partly delivered, body partly delivered, handler running at a gate, response written), ExitWaitTimeout short/long, IdleTimeout 0/short/long, 0..3 OnShutdown hooks (instant / shorter / longer than the wait), Shutdown called once, twice, before Run, after Run returned; new dials before/after. Fake clock. Non-trivial: >= 1 connection open or handler running when Shutdown is called; distinct = abstract signature (connection-state vector at the flip, order of flip / listener close / handler returns / Shutdown return, config). Added later: a failing listen (Run returns on its own, Shutdown afterwards), slow readers (write backpressure, so shutdown can begin while a response is being written), handlers that set the Connection header themselves, and the oracle that a request which had arrived completely on an accepted connection, with everything before it answered and no handler running, is handled when Shutdown returns nil before the wait expires.",
+		Rule: "episode = real route.Engine.Run on the real standard transport accept loop over a simulated listener (hook H3), 1..6 simulated client connections whose state at the moment of shutdown is decided by the scheduler (idle keep-alive, header partly delivered, body partly delivered, handler running at a gate, response written), ExitWaitTimeout short/long, IdleTimeout 0/short/long, 0..3 OnShutdown hooks (instant / shorter / longer than the wait), Shutdown called once, twice, before Run, after Run returned; new dials before/after. Fake clock. Non-trivial: >= 1 connection open or handler running when Shutdown is called; distinct = abstract signature (connection-state vector at the flip, order of flip / listener close / handler returns / Shutdown return, config). Added later: a failing listen (Run returns on its own, Shutdown afterwards), slow readers (write backpressure, so shutdown can begin while a response is being written), handlers that set the Connection header themselves, and the oracle that a request which had arrived completely on an accepted connection, with everything before it answered and no handler running, is handled when Shutdown returns nil before the wait expires. Later still: dials while a shutdown drains, and - one episode in four - the server run and stopped through Hertz.Spin with a custom signal waiter after a drawn uptime.",
 		Real: []string{"route.Engine.Run/Shutdown/executeOnShutdownHooks/MarkAsRunning/IsRunning", "standard.transport.serve/Shutdown/updateActive (accept loop, active counter, ticker wait)", "http1.Server.Serve exit check", "standard.Conn"},
 		Stub: []string{"listener + TCP (SimListener via hook H3, SimConn)", "clients (scripted actors)", "clock (synctest)"},
 		Assumptions: []string{
